@@ -421,7 +421,9 @@ def check(pid, tier, seed):
                 # A crash of the harness is a behavioural difference: report as broken correspondence.
                 broken.append({"what": f"corr:harness-crash profile={profile}",
                                "detail": (r["harness_err"] + r["driver_err"])[-2000:]})
-                continue
+                if r["driver_rc"] != 0:
+                    continue
+                # everything the harness printed before it died was still judged by the driver: keep it
             if r["U"]:
                 framework_errors.append(f"driver could not interpret lines ({profile}): " + "; ".join(r["U"][:3]))
             for line in r["F"]:
